@@ -33,7 +33,8 @@ pub fn gen_case(campaign: &str, r: &mut Rng) -> Case {
                 // structured: [bool f64]* terminator pieces
                 let n = match style {
                     1 => 0,
-                    _ => 1 + r.below(6) as usize,
+                    // usually 1..6 ends; one case in twelve is long (std's sort switches algorithm above 20 elements)
+                    _ => crate::campaigns::size_capped(r, 1, 6, 600),
                 };
                 let mut ends = vec![];
                 for i in 0..n {
@@ -49,6 +50,7 @@ pub fn gen_case(campaign: &str, r: &mut Rng) -> Case {
                             }
                         }
                         5 => *r.pick(&[1.0, 2.0, -3.0, f64::MIN_POSITIVE, f64::MAX, -f64::MAX]), // duplicates, extremes
+                        6 => { let v = (r.range(-40, 40) as f64) * 0.5; if v == 0.0 { 0.25 } else { v } } // many duplicates among long lists, both signs, unsorted
                         _ => moderate(r).0,
                     };
                     ends.push(e);
@@ -70,7 +72,7 @@ pub fn gen_case(campaign: &str, r: &mut Rng) -> Case {
                 for _ in 0..have {
                     bytes.push(if r.chance(1, 8) { 1 } else { r.below(256) as u8 });
                 }
-                cls.push_str(&format!(":n={}:short={}", n.min(3), have < want));
+                cls.push_str(&format!(":n={}:short={}", if n > 20 { "long".to_string() } else { n.min(3).to_string() }, have < want));
             }
             let mut c = Case::new("arbitrary", tag).set("bytes", Val::S(hex_bytes(&bytes))).cls(&cls);
             c.nontrivial = bytes.len() >= 18;
@@ -144,6 +146,25 @@ where
     r.unwrap_or(("PANIC".to_string(), "1".to_string()))
 }
 
+/// the other entry point of the trait: `arbitrary_take_rest` (what `fuzz_target!` calls); C19 is about every value the
+/// impl returns, through whichever entry point
+fn arb_rest<T>(bytes: &[u8]) -> String
+where
+    T: for<'a> Arbitrary<'a> + Nums + Evaluate,
+{
+    catch_unwind(AssertUnwindSafe(|| match Piecewise::<T>::arbitrary_take_rest(Unstructured::new(bytes)) {
+        Err(_) => "ERR".to_string(),
+        Ok(pw) => {
+            // must also be evaluable without panicking
+            if !pw.segments.is_empty() {
+                let _ = pw.evaluate(0.0);
+            }
+            show_pw(&pw_from(&pw))
+        }
+    }))
+    .unwrap_or_else(|_| "PANIC".to_string())
+}
+
 pub fn run_extra(c: &Case) -> Option<Vec<(String, String)>> {
     match c.cmd.as_str() {
         "arbitrary" => {
@@ -161,7 +182,20 @@ pub fn run_extra(c: &Case) -> Option<Vec<(String, String)>> {
                 "pn" => arb_one::<PolyN>(&bytes),
                 _ => ("UNSUPPORTED".into(), "1".into()),
             };
-            Some(vec![("agree".into(), agree), ("impl".into(), imp)])
+            let rest = match c.tag.as_str() {
+                "p0" => arb_rest::<Poly0>(&bytes),
+                "p1" => arb_rest::<Poly1>(&bytes),
+                "p2" => arb_rest::<Poly2>(&bytes),
+                "p3" => arb_rest::<Poly3>(&bytes),
+                "p4" => arb_rest::<Poly4>(&bytes),
+                "p5" => arb_rest::<Poly5>(&bytes),
+                "p6" => arb_rest::<Poly6>(&bytes),
+                "p7" => arb_rest::<Poly7>(&bytes),
+                "p8" => arb_rest::<Poly8>(&bytes),
+                "pn" => arb_rest::<PolyN>(&bytes),
+                _ => "ERR".into(),
+            };
+            Some(vec![("agree".into(), agree), ("takerest".into(), rest), ("impl".into(), imp)])
         }
         "serde" => crate::serde_campaign::run(c),
         _ => None,
